@@ -161,6 +161,43 @@ def run(ck):
         if any(not np.array_equal(outsb[0][0], o[0]) or outsb[0][1] != o[1] for o in outsb[1:]):
             ck.violation(f'same seed/data/config gives different predictions / bandwidths {[o[1] for o in outsb]} after prior random draws on a {nb}-row adaptive leaf ({kern_big})',
                          dict(kernel=kern_big, n=nb, bandwidths=[o[1] for o in outsb]), key=json.dumps(dict(site='seed-reproducibility', method='large-adaptive-leaf')))
+    # (2c) wide data (more features than the library's threshold for switching the split model's top-eigenvector computation to an iterative solver,
+    #      whose start block is a random draw): same seed after prior draws, and refit vs fresh
+    for j in range(ck.n(2, 6)):
+        dw = [300, 270, 420][j % 3]
+        methodw = ['top_vector_agop_on_subset', 'top_pc_agop_on_subset'][j % 2]
+        taskw = ['reg', 'class'][j % 2]
+        def dataw(n):
+            X = xr.make_X('random', n, dw, rng); y = xr.make_y(taskw, X[:, :3], rng, n_classes=2); Xv = xr.make_X('random', 30, dw, rng); yv = xr.make_y(taskw, Xv[:, :3], rng, n_classes=2)
+            return [torch.tensor(a) for a in (X, y, Xv, yv)]
+        Dw = dataw(130); Qw = torch.tensor(xr.make_X('random', 25, dw, rng))
+        ctorw = dict(rfm_params=xr.default_rfm_params(iters=0, reg=1e-2, bandwidth=20.0), max_leaf_size=70, verbose=False, split_method=methodw,
+                     temp_tuning_space=[0.0, 0.3], refill_size=10, random_state=900 + j)
+        descw = dict(kind='wide', j=j, d=dw, method=methodw, task=taskw, seed=ck.seed)
+        outsw = []
+        for burn in (0, 31, 3_000):
+            random.seed(burn); np.random.seed(burn); torch.manual_seed(burn)
+            if burn:
+                torch.randn(burn); np.random.rand(burn)
+            mw = xr.xRFM(**copy.deepcopy(ctorw))
+            with xr.quiet():
+                mw.fit(*Dw)
+            outsw.append(preds(mw, Qw, taskw == 'class'))
+        ck.case(dict(descw, sub='seed-after-burn'), nontrivial=any(t['type'] != 'leaf' for t in mw.trees)); ck.count(f'wide data d={dw}')
+        for k in (1, 2):
+            if any(not np.array_equal(a, b) for a, b in zip(outsw[0], outsw[k])):
+                dmax = max(float(np.max(np.abs(a.astype(float) - b.astype(float)))) for a, b in zip(outsw[0], outsw[k]))
+                ck.violation(f'same seed/data/config gives different predictions (max diff {dmax}) after prior random draws on wide data {descw}', dict(descw, maxdiff=dmax),
+                             key=json.dumps(dict(site='seed-reproducibility', method='wide')))
+        ctorw2 = dict(ctorw); ctorw2.pop('random_state')
+        freshw = seeded_fit(xr.xRFM(**copy.deepcopy(ctorw2)), Dw, 556)
+        usedw = xr.xRFM(**copy.deepcopy(ctorw2)); seeded_fit(usedw, dataw(110), 12 + j); seeded_fit(usedw, Dw, 556)
+        a = preds(freshw, Qw, taskw == 'class'); b = preds(usedw, Qw, taskw == 'class')
+        ck.case(dict(descw, sub='refit'), nontrivial=any(t['type'] != 'leaf' for t in usedw.trees))
+        if any(x.shape != y.shape or not np.array_equal(x, y) for x, y in zip(a, b)):
+            dmax = max(float(np.max(np.abs(x.astype(float) - y.astype(float)))) for x, y in zip(a, b) if x.shape == y.shape)
+            ck.violation(f'wide data: refit predicts differently from a fresh model (max diff {dmax}) on {descw}', dict(descw, maxdiff=dmax),
+                         key=json.dumps(dict(site='refit', method='wide')))
     # (3) tie-forcing scenario from C10's tie theorem: accuracy on a tiny validation set, candidates tie
     for i in range(ck.n(6, 30)):
         D1 = data('class', 160, 3, K=2)
